@@ -1,6 +1,7 @@
 package rules
 
 import (
+	"go/ast"
 	"go/token"
 	"go/types"
 	"strings"
@@ -396,6 +397,108 @@ func c08usage(c *Ctx) {
 	c.R.Check(!reach, site(rm[0])+" using-gone", c.pos(rm[0].Pos()),
 		"RemoveFinalizer is unreachable from the edge where the using resource was read successfully", "the Usage finalizer can be removed although its using resource still exists", w...)
 	c.requireCross(site(rm[0])+" deleted", rm[0], wdTrue, "WasDeleted(u)==true")
+	// The wait itself is skipped only for a Usage that names no using resource
+	// (spec.by == nil) or is not composed (no composite label): every branch of
+	// the deletion path whose one side leads to Get(using) and whose other side
+	// reaches RemoveFinalizer without it tests exactly one of those two facts.
+	gb, rb := getUsing[0].Block(), rm[0].Block()
+	strip := func(v ssa.Value) ssa.Value {
+		for {
+			switch x := v.(type) {
+			case *ssa.UnOp:
+				if x.Op != token.MUL {
+					return v
+				}
+				v = x.X
+			case *ssa.ChangeType:
+				v = x.X
+			default:
+				return v
+			}
+		}
+	}
+	nBypass := 0
+	for _, b := range fn.Blocks {
+		if len(b.Instrs) == 0 {
+			continue
+		}
+		iff, ok := b.Instrs[len(b.Instrs)-1].(*ssa.If)
+		if !ok {
+			continue
+		}
+		if in, _ := cfgx.MustCross(iff, wdTrue, nil); !in {
+			continue
+		}
+		for i := 0; i < 2; i++ {
+			e, o := cfgx.Edge{From: b, Idx: i}, cfgx.Edge{From: b, Idx: 1 - i}
+			ro, _ := cfgx.ReachFromEdges([]cfgx.Edge{o}, nil)
+			re, _ := cfgx.ReachFromEdges([]cfgx.Edge{e}, nil)
+			if !ro[gb] || re[gb] || !re[rb] {
+				continue
+			}
+			bin, ok := iff.Cond.(*ssa.BinOp)
+			if !ok || (bin.Op != token.EQL && bin.Op != token.NEQ) {
+				continue // a flag or predicate: not decided here (R8.5's reachability clause still applies)
+			}
+			nBypass++
+			x, y := bin.X, bin.Y
+			if _, isConst := x.(*ssa.Const); isConst {
+				x, y = y, x
+			}
+			tabled := ""
+			if cfgx.IsNilConst(y) && isFieldSel(strip(x), "v1beta1.UsageSpec", "By") {
+				tabled = "spec.by is nil: the Usage names no using resource"
+			}
+			if s, isStr := cfgx.ConstString(y); isStr && s == "" {
+				fromLabels := flow.Default.Any(x, func(v ssa.Value) bool {
+					if l, ok := v.(*ssa.Lookup); ok {
+						return flow.Default.Any(l.X, func(w ssa.Value) bool { return isFieldSel(w, "v1.ObjectMeta", "Labels") }) || strings.Contains(l.X.String(), "GetLabels")
+					}
+					return false
+				})
+				if fromLabels {
+					tabled = "a label of the Usage is empty: the Usage is not composed"
+				}
+			}
+			c.R.Check(tabled != "", load.FuncName(fn)+": skipping the wait for the using resource on "+types.ExprString(condExpr(bin)), c.pos(iff.Pos()),
+				"tabled: "+tabled, "a deleted Usage reaches RemoveFinalizer without reading its using resource on a condition that is neither 'spec.by is nil' nor 'not composed': a composed Usage whose using resource still exists can be finalized")
+		}
+	}
+	if nBypass == 0 {
+		c.R.OKTrivial(load.FuncName(fn)+": wait for the using resource", c.pos(getUsing[0].Pos()), "no comparison lets the deletion path skip Get(using)")
+	}
+}
+
+// condExpr renders a comparison for an obligation's construct by operand kind (never by position).
+func condExpr(b *ssa.BinOp) ast.Expr {
+	name := func(v ssa.Value) string {
+		for {
+			switch x := v.(type) {
+			case *ssa.UnOp:
+				v = x.X
+				continue
+			case *ssa.FieldAddr:
+				if p, ok := x.X.Type().Underlying().(*types.Pointer); ok {
+					if st, ok := p.Elem().Underlying().(*types.Struct); ok {
+						return "." + st.Field(x.Field).Name()
+					}
+				}
+			case *ssa.Field:
+				if st, ok := x.X.Type().Underlying().(*types.Struct); ok {
+					return "." + st.Field(x.Field).Name()
+				}
+			case *ssa.Lookup:
+				return "lookup"
+			case *ssa.Const:
+				if x.IsNil() {
+					return "nil"
+				}
+				return "const"
+			}
+			return "value"
+		}
+	}
+	return &ast.BinaryExpr{X: ast.NewIdent(name(b.X)), Op: b.Op, Y: ast.NewIdent(name(b.Y))}
 }
 
 func c08engine(c *Ctx) { engineStopRule(c, "R8.6") }
